@@ -444,6 +444,52 @@ def schedule_case():
     return Case(line, line, ('scheduled',), fail, {'op': 'scheduled'})
 
 
+def hook_crash_case(rng):
+    """the process dies while the application's send_error hook is suspended (a sweep is reporting an expired request):
+    what other tasks recorded or consumed meanwhile - a new SMSC id, a receipt that used up an old one - is in the files
+    already, since every assignment saves at once; the store files are read as they are at that moment"""
+    from aiosmpplib.protocol import SmppMessage
+    d1 = tempfile.mkdtemp(prefix='c19h-')
+    fail = None
+    seen = {}
+    try:
+        a = CorrSim(directory=d1)
+        try:
+            a.op_put(100, a.submit(1, 51, 1051))                       # never answered: expires
+            a.op_put(101, a.submit(2, 52, 1052))
+            a.op_hresp(102, a.resp('submitresp', 2, 0, 'old'))         # recorded long before
+            t = 100 + 16 * Q
+            a.op_put(100 + 14 * Q, a.submit(3, 53, 1053))              # fresh when the sweep runs
+
+            async def meanwhile(_reported):
+                # ... the Receiver handles the response to 3 and a receipt for 'old' while the hook is suspended
+                r = a.resp('submitresp', 3, 0, 'new')
+                pdu_ = r.pdu()
+                await a.esme._handle_response(pdu_, SmppMessage.parse_header(pdu_[:16]))
+                d = a.deliver(77, 'x', receipt=('old', 0))
+                pdu_ = d.pdu()
+                await a.esme._handle_request(pdu_, SmppMessage.parse_header(pdu_[:16]))
+                # the crash: this is what a new process would find
+                try:
+                    with open(os.path.join(d1, 'c_delivery_store.json'), encoding='utf-8') as f:
+                        seen['ids'] = sorted(json.load(f).keys())
+                except Exception as e:      # noqa
+                    seen['ids'] = 'unreadable: %r' % (e,)
+            a.nested_op = meanwhile
+            a.op_put(t, a.request('enq', 5000))
+        finally:
+            a.close()
+        if seen.get('ids') != ['new']:
+            fail = ('while the send_error hook was suspended another task recorded the id "new" and a receipt consumed the id "old": '
+                    'the delivery store file then holds %s, expected ["new"]' % (seen.get('ids', 'nothing: the hook was never entered'),))
+    except Exception as e:      # noqa
+        fail = 'the scenario raised %r' % (e,)
+    finally:
+        shutil.rmtree(d1, ignore_errors=True)
+    line = '# crash-while-hook-suspended'
+    return Case(line, line, ('hook-crash',), fail, {'op': 'hook-crash'})
+
+
 def file_states(d):
     out = {}
     for f in sorted(os.listdir(d)):
@@ -584,6 +630,7 @@ def generate(rng, tier):
     for _ in range(60 if thorough else 16):
         yield reboot_case(rng)
     yield schedule_case()
+    yield hook_crash_case(rng)
     for _ in range(120 if thorough else 30):
         for c in crash_cases(rng, 40 if thorough else 14):
             yield c
@@ -594,6 +641,8 @@ def replay(inp):
         return Case(inp['line'], '', None, None, inp)
     if inp.get('op') == 'restart':
         return restart_case(None, fixed=(inp['hist'], inp['at']))
+    if inp.get('op') == 'hook-crash':
+        return hook_crash_case(None)
     if inp.get('op') == 'scheduled':
         return schedule_case()
     if inp.get('op') == 'reboot':
